@@ -91,6 +91,16 @@ def run_unit(unit, fn_override=None, canary_expect=None):
     eng = Engine(repo, schema=unit.schema, inline=unit.inline, unit=unit.name,
                  fn_override=fn_override, canary_expect=canary_expect)
     eng.contracted = contracted_functions()
+    try:
+        # contracts of the container iterators (proved in C17/container-iterators, C12/Pulse_Container): available to every
+        # unit, so that `for g in self` and `for g in self.geo` are the same thing to the verifier
+        from contracts import common as _K
+        if 'Geo_Container.__iter__' not in unit.functions:          # never in the unit that proves it
+            eng.summaries.setdefault('Geo_Container.__iter__', _K.sum_geo_container_iter)
+        if 'Pulse_Container.__iter__' not in unit.functions:
+            eng.summaries.setdefault('Pulse_Container.__iter__', _K.sum_pulse_container_iter)
+    except Exception:
+        pass
     t0 = time.time()
     res = {'unit': unit.name, 'error': None, 'obligations': {}, 'paths': 0}
     try:
@@ -124,7 +134,7 @@ def run_unit(unit, fn_override=None, canary_expect=None):
     res['solver_s'] = round(eng.solver_time, 3)
     res['wall_s'] = round(time.time() - t0, 3)
     res['rechecked'] = dict(eng.rechecked)
-    res['inlined'] = sorted(eng.inlined_seen) + ['%s (automatic: loop-free helper without a unit)' % q for q in sorted(eng.auto_inlined)]
+    res['inlined'] = sorted(eng.inlined_seen) + ['%s (automatic: helper that no unit claims)' % q for q in sorted(eng.auto_inlined)]
     res['summaries_used'] = sorted(eng.summaries_used)
     from . import builtins as B
     res['axioms'] = sorted(B.AXIOMS_USED)
